@@ -2,6 +2,7 @@ import Casm.Proofs.CornerLast
 import Casm.Proofs.ModeMonoFirst
 import Casm.Proofs.BudgetMono
 import Casm.Proofs.FullFix
+import Casm.Proofs.RepExact
 /-!
 # Casm.Proofs.BudgetOne — budget monotonicity from a budget of one pass
 
@@ -61,5 +62,27 @@ theorem resolveIterativelyN_full_fixed_point_any (st : Static) (nodes : List Ast
   have g := resolveIterativelyN_good st nodes d0 f max ho hmax k d rep h
   have hok : NodesOK d nodes := pass_establishes_ok st nodes false true d d true r hfix hwf
   exact ⟨r, pre, resolveOnce_uf st nodes true d r hfix hok (good_recomputesAll st nodes d0 d f g), hrep⟩
+
+/-- budget monotonicity of the loop from every budget of at least one pass -/
+theorem budget_monotone_any (st : Static) (nodes : List AstNode) (hwf : NoClash nodes) (u : Uniq nodes)
+    (d0 : Defs) (hok0 : NodesOK d0 nodes) (n m : Nat) (hn : 1 ≤ n) (hnm : n ≤ m) (k : Nat) (d : Defs) (rep : List String)
+    (h : resolveIterativelyN st nodes n d0 = .ok (k, d, rep)) :
+    ∃ k' rep', resolveIterativelyN st nodes m d0 = .ok (k', d, rep') := by
+  by_cases h2 : 2 ≤ n
+  · exact budget_monotone_model st nodes hwf n m h2 hnm d0 k d rep h
+  · have : n = 1 := by omega
+    subst this
+    exact budget_monotone_from_one st nodes hwf u d0 hok0 k d rep h m hnm
+
+/-- the messages of a successful iteration are those of the strict pass on its result, for every budget -/
+theorem resolveIterativelyN_rep_any (st : Static) (nodes : List AstNode) (max : Nat) (hmax : 1 ≤ max) (hwf : NoClash nodes)
+    (u : Uniq nodes) (d0 : Defs) (hok0 : NodesOK d0 nodes) (k : Nat) (d : Defs) (rep : List String)
+    (h : resolveIterativelyN st nodes max d0 = .ok (k, d, rep)) :
+    resolveOnce st nodes false true d = .ok (d, true, rep) := by
+  by_cases h2 : 2 ≤ max
+  · exact resolveIterativelyN_rep st nodes max h2 hwf d0 k d rep h
+  · have : max = 1 := by omega
+    subst this
+    exact resolveIterativelyN_fixed_point_one st nodes hwf u d0 hok0 k d rep h
 
 end Casm
